@@ -121,7 +121,15 @@ func propExpiryBounds(c *Case) {
 				return
 			}
 			k, poison := poisonKey(key)
-			err := be.Write(ttlCtx(ctxTTL), k, val)
+			wctx := ttlCtx(ctxTTL)
+
+			// an explicit zero TTL inside a context that already carries one means "default" again
+			if ctxTTL == 0 && c.Weighted("zero-inside-ttl-ctx", 3, 1) == 1 {
+				wctx = cache.WithTTL(cache.WithTTL(bg, drawDuration(c, "outerTTL"), false), 0, false)
+				c.Class("explicit-zero-ttl-inside-ttl-context")
+			}
+
+			err := be.Write(wctx, k, val)
 			poison()
 			c.Assert(err == nil, "write-error", "Write returned %v", err)
 
